@@ -548,4 +548,4 @@ func replayC11(c *Ctx, v report.Violation) {
 }
 
 // c11Conformance is filled in by conformance.go (real grpc-go back-ends).
-var c11Conformance = func(c *Ctx, w *bWorld) {}
+var c11Conformance func(c *Ctx, w *bWorld)
